@@ -6,6 +6,7 @@ import (
 	"bufio"
 	"crypto/tls"
 	"fmt"
+	"io"
 	"net"
 	"net/http"
 	"strings"
@@ -18,7 +19,7 @@ import (
 )
 
 // C15 — Shutdown is graceful.
-// Scenario letters per connection: t = TLS-style connection still in its handshake when Shutdown begins; i = served one request and now idle keep-alive; h = handler parked on a gate when
+// Scenario letters per connection: t = TLS-style connection still in its handshake when Shutdown begins; i = served one request and now idle keep-alive; b = two pipelined requests, the first one's handler has returned and its response body stream blocks on the gate (Shutdown begins while the response is being written); h = handler parked on a gate when
 // Shutdown begins (released `delay` ms later); w = accepted, ConnState(StateNew) hook parked (Serve loop between Accept and worker); k = the same for the second request of a keep-alive connection; p = two pipelined requests, the first parked; c = served and closed by client.
 func init() {
 	Register(&Prop{
@@ -33,10 +34,15 @@ func init() {
 			reduceMem := len(a) > 2 && strings.Contains(string(a[2]), "rm=1")
 			ln := fasthttputil.NewInmemoryListener()
 			gate := make(chan struct{})
-			var running, started, doneSeen atomic.Int32
+			var running, started, doneSeen, streamReading atomic.Int32
 			// 'w': the ConnState(StateNew) hook of one accepted connection is parked when Shutdown begins: the Serve loop
 			// is between Accept and handing the connection to a worker
 			var parkNew atomic.Bool
+			// 'j' (first letter only): two pipelined requests; the first is answered (its response still sits in the write
+			// buffer because a further request was already read) and the connection's StateIdle hook is parked when Shutdown
+			// begins — a connection in that position is not an idle keep-alive connection
+			var parkIdle atomic.Bool
+			var idleParked atomic.Int32
 			gateNew := make(chan struct{})
 			var shutdownReturned atomic.Bool
 			var startedAfterReturn atomic.Int32
@@ -51,6 +57,10 @@ func init() {
 				ConnState: func(_ net.Conn, st fasthttp.ConnState) {
 					if st == fasthttp.StateNew && parkNew.CompareAndSwap(true, false) {
 						<-gateNew
+					}
+					if st == fasthttp.StateIdle && parkIdle.CompareAndSwap(true, false) {
+						idleParked.Add(1)
+						<-gate
 					}
 				},
 				Handler: func(ctx *fasthttp.RequestCtx) {
@@ -67,6 +77,12 @@ func init() {
 							doneSeen.Add(1)
 						default:
 						}
+					}
+					if ctx.QueryArgs().Has("bs") {
+						// the handler returns at once; its response body is a stream whose Read blocks on the gate: Shutdown
+						// begins while the server is writing this response
+						ctx.SetBodyStream(&c15GatedReader{gate: gate, entered: &streamReading, data: []byte("ok-" + string(ctx.QueryArgs().Peek("id")))}, 3+len(ctx.QueryArgs().Peek("id")))
+						return
 					}
 					ctx.SetBodyString("ok-" + string(ctx.QueryArgs().Peek("id")))
 				}}
@@ -110,6 +126,7 @@ func init() {
 				br       *bufio.Reader
 				expect   []string // bodies still expected after Shutdown began
 				got      []string
+				readErr  string
 				idle     bool
 				closedAt time.Time
 			}
@@ -159,6 +176,9 @@ func init() {
 				if script[i] == 't' {
 					wrapTLS.Store(true)
 				}
+				if script[i] == 'j' && i == 0 {
+					parkIdle.Store(true)
+				}
 				c, err := ln.Dial()
 				if err != nil {
 					break
@@ -193,6 +213,16 @@ func init() {
 					for handshaking.Load() == 0 && time.Now().Before(dlT) {
 						time.Sleep(time.Millisecond)
 					}
+				case 'j':
+					fmt.Fprintf(c, "GET /?id=%dj HTTP/1.1\r\nHost: h\r\n\r\nGET /?id=%dz HTTP/1.1\r\nHost: h\r\n\r\n", i, i)
+					k.expect = []string{fmt.Sprintf("ok-%dj", i)}
+					dlJ := time.Now().Add(3 * time.Second)
+					for i == 0 && idleParked.Load() == 0 && time.Now().Before(dlJ) {
+						time.Sleep(time.Millisecond)
+					}
+				case 'b':
+					fmt.Fprintf(c, "GET /?id=%db&bs=1 HTTP/1.1\r\nHost: h\r\n\r\nGET /?id=%dy HTTP/1.1\r\nHost: h\r\n\r\n", i, i)
+					k.expect = []string{fmt.Sprintf("ok-%db", i)}
 				case 'p':
 					fmt.Fprintf(c, "GET /?id=%d&hold=1 HTTP/1.1\r\nHost: h\r\n\r\nGET /?id=%dx HTTP/1.1\r\nHost: h\r\n\r\n", i, i)
 					k.expect = []string{fmt.Sprintf("ok-%d", i)}
@@ -200,7 +230,8 @@ func init() {
 			}
 			nHold := int32(strings.Count(script, "h") + strings.Count(script, "p") + strings.Count(script, "k"))
 			dl := time.Now().Add(2 * time.Second)
-			for started.Load() < nHold && time.Now().Before(dl) {
+			nStream := int32(strings.Count(script, "b"))
+			for (started.Load() < nHold || streamReading.Load() < nStream) && time.Now().Before(dl) {
 				time.Sleep(time.Millisecond)
 			}
 			// readers for in-flight connections
@@ -216,6 +247,7 @@ func init() {
 						b, err := read(k)
 						if err != nil {
 							k.closedAt = time.Now()
+							k.readErr = err.Error()
 							return
 						}
 						k.got = append(k.got, b)
@@ -294,9 +326,15 @@ func init() {
 					}
 				}
 			}
+			var clientNotes []string
+			for i, k := range clients {
+				if len(k.expect) > 0 {
+					clientNotes = append(clientNotes, fmt.Sprintf("#%d got=%q end=%q", i, k.got, k.readErr))
+				}
+			}
 			impl := fmt.Sprintf("err=%v took=%dms runningAtRelease=%d runningAtReturn=%d serveReturned=%v dialRefused=%v missing=%v doneSeen=%d/%d",
-				err, took.Milliseconds(), runningAtRelease, runningAtReturn, serveReturned, dialRefused, missing, doneSeen.Load(), nHold)
-			return &Case{Impl: impl, Nontrivial: nHold > 0 || strings.ContainsAny(script, "wt"), Tags: []string{"shutdown", fmt.Sprintf("rm=%v", reduceMem), fmt.Sprintf("second-cycle=%v", secondCycle)},
+				err, took.Milliseconds(), runningAtRelease, runningAtReturn, serveReturned, dialRefused, missing, doneSeen.Load(), nHold) + " clients: " + strings.Join(clientNotes, "; ") + fmt.Sprintf(" streamReading=%d started=%d", streamReading.Load(), started.Load())
+			return &Case{Impl: impl, Nontrivial: nHold > 0 || strings.ContainsAny(script, "wtbj"), Tags: []string{"shutdown", fmt.Sprintf("rm=%v", reduceMem), fmt.Sprintf("second-cycle=%v", secondCycle)},
 				Judge: func([]string) Verdict {
 					desc := fmt.Sprintf("script %q delay %v ReduceMemoryUsage=%v secondServeShutdownCycleOfThisServer=%v: %s", script, delay, reduceMem, secondCycle, impl)
 					if warmErr != "" {
@@ -340,7 +378,10 @@ func init() {
 			for i := 0; i < n; i++ {
 				var sc []byte
 				for j, m := 0, 1+r.Intn(4); j < m; j++ {
-					sc = append(sc, "iihhpckk"[r.Intn(8)])
+					sc = append(sc, "iihhpckkbb"[r.Intn(10)])
+				}
+				if r.Chance(20) {
+					sc = append([]byte{'j'}, sc...) // always first: the first StateIdle call of the server is the parked one
 				}
 				if r.Chance(30) {
 					sc = append(sc, 'w') // always last: its parked hook blocks the accept loop
@@ -390,3 +431,25 @@ func (c *c15TLSConn) Handshake() error {
 }
 
 func (c *c15TLSConn) ConnectionState() tls.ConnectionState { return tls.ConnectionState{} }
+
+// c15GatedReader is a response body stream whose first Read blocks until the gate opens
+type c15GatedReader struct {
+	gate    chan struct{}
+	entered *atomic.Int32
+	data    []byte
+	once    bool
+}
+
+func (g *c15GatedReader) Read(p []byte) (int, error) {
+	if !g.once {
+		g.once = true
+		g.entered.Add(1)
+		<-g.gate
+	}
+	if len(g.data) == 0 {
+		return 0, io.EOF
+	}
+	n := copy(p, g.data)
+	g.data = g.data[n:]
+	return n, nil
+}
